@@ -141,6 +141,7 @@ class Coverage:
                     miss.append('%d %s: %s' % (ln, q, src[ln - 1].strip()))
             out[os.path.relpath(path, self.repo)] = miss
         root = os.path.normpath(os.path.join(os.path.dirname(os.path.abspath(__file__)), '..', '..'))
+        os.makedirs(os.path.join(root, 'evidence', 'dev'), exist_ok=True)
         with open(os.path.join(root, 'evidence', 'dev', 'coverage_%s.json' % self.pid), 'w') as f:
             json.dump(dict(property=self.pid, reached=hit, total=tot, unreached=out), f, indent=1)
         print('coverage %s: %d/%d executable lines of the anchored functions reached' % (self.pid, hit, tot),
